@@ -378,6 +378,17 @@ class UnitBuild:
         self.functions = []  # real functions under contract
         self.assumptions = []
         self.drops = []
+        self.skipped = []  # optional slices whose anchors were lost: the rest of the unit is still verified
+
+    def optional(self, what, build_fn, prefixes=()):
+        """Builds one independent slice of the unit; if its anchors are lost the slice is left out (its obligations are
+        then undecided) and the other slices are still verified."""
+        mark = len(self.parts)
+        try:
+            build_fn()
+        except LostAnchor as e:
+            del self.parts[mark:]
+            self.skipped.append({"what": "%s: %s" % (what, e), "prefixes": list(prefixes)})
 
     def spec(self, text):
         self.parts.append(("spec", text if text.endswith("\n") else text + "\n"))
@@ -426,13 +437,15 @@ class VerusResult:
         self.assumptions = []
         self.fn_breakdown = []
         self.textual = []
+        self.skipped = []
 
     def to_json(self):
         return {"unit": self.unit, "status": self.status, "reason": self.reason, "verus_functions_verified": self.verified_fns,
                 "named_obligations": self.named, "failed": self.failed, "wall_s": round(self.time_s, 2),
                 "smt_ms": self.smt_ms, "extraction_transforms": self.transforms, "assumption_scan": self.scan,
                 "functions_under_contract": self.functions, "assumptions": self.assumptions,
-                "function_breakdown": self.fn_breakdown, "textual_side_conditions": self.textual}
+                "function_breakdown": self.fn_breakdown, "textual_side_conditions": self.textual,
+                "slices_left_out_after_lost_anchor": self.skipped}
 
 
 def run_unit(recipe_mod, workdir):
@@ -461,6 +474,7 @@ def run_unit(recipe_mod, workdir):
                 r.reason = "a `%s` loop of the extracted code has no invariant in the recipe (code shape changed): %s" % (
                     m.group(1), re.sub(r"\s+", " ", m.group(0))[:80])
                 return r
+    r.skipped = list(getattr(ub, "skipped", []))
     r.functions = ub.functions
     r.assumptions = ub.assumptions
     r.textual = [{"check": n, "holds": bool(ok), "text": t} for n, ok, t in getattr(ub, "textual", [])]
